@@ -180,10 +180,10 @@ def family_programs():
 
     T = ("T", None)
     for page_fills in itertools.product((False, True), repeat=3):  # page gives a: fill x / fill y / fill default
-        for a_fill_x in ("none", "plain", "alias", "alias+slot", "passthrough-x", "passthrough-y", "loop-passthrough"):
+        for a_fill_x in ("none", "plain", "alias", "alias+slot", "passthrough-x", "passthrough-y", "loop-passthrough", "alias-nested"):
             for a_fill_y in ("none", "plain"):
                 for a_own in ("none", "slot-y", "slot-x-default"):
-                    for b_inner in ("y", "x", "y-default", "none"):
+                    for b_inner in ("y", "x", "y-default", "none", "loop-var"):
                         for b_outer_flag in ("", "d"):
                             # b: slot x { B1, [slot <inner> { B2 }] }
                             inner = ()
@@ -191,6 +191,9 @@ def family_programs():
                                 nm = b_inner.split("-")[0]
                                 inner = (("Slot", nm, "d" if b_inner.endswith("default") else "", (), (T,)),)
                             b_tpl = (("Slot", "x", b_outer_flag, (), (T,) + inner),)
+                            if b_inner == "loop-var":
+                                # the slot sits in a loop and its own content shows the loop variable
+                                b_tpl = (("For", "n", "xy", (("Slot", "x", b_outer_flag, (), (T, ("V", "n"))), T)),)
                             fills = []
                             if a_fill_x == "plain":
                                 fills.append(("Fill", "x", None, None, (T,)))
@@ -198,6 +201,9 @@ def family_programs():
                                 fills.append(("Fill", "x", None, "d", (T, ("D", "d"))))
                             elif a_fill_x == "alias+slot":
                                 fills.append(("Fill", "x", None, "d", (("D", "d"), ("Slot", "y", "", (), (T,)))))
+                            elif a_fill_x == "alias-nested":
+                                # the slot's own content re-emitted inside the body of a further (deferred) component
+                                fills.append(("Fill", "x", None, "d", (T, ("Comp", "c", (), False, (("D", "d"), T)))))
                             elif a_fill_x.startswith("passthrough"):
                                 fills.append(("Fill", "x", None, None, (T, ("Slot", a_fill_x[-1], "", (), (T,)))))
                             if a_fill_y == "plain":
@@ -219,7 +225,10 @@ def family_programs():
                                 if given:
                                     pf.append(("Fill", nm, None, None, (T,)))
                             page = (("Comp", "a", (), False, tuple(pf) if pf else None),)
-                            yield Program(label(page, "P"), {"a": make_spec("a", label(a_tpl, "A")), "b": make_spec("b", label(b_tpl, "B"))}, dict(PAGE_CTX))
+                            comps = {"a": make_spec("a", label(a_tpl, "A")), "b": make_spec("b", label(b_tpl, "B"))}
+                            if a_fill_x == "alias-nested":
+                                comps["c"] = make_spec("c", label((("Slot", "z", "d", (), (T,)),), "C"))
+                            yield Program(label(page, "P"), comps, dict(PAGE_CTX))
 
 
 def family_worker(w, W, payload):
